@@ -396,6 +396,22 @@ def rlimit_sweep():
         sc = {"prop": "C08", "lines": lines, "externals": [], "faults": {}, "files": {}, "config": "rlimit_sweep",
               "adversarial_picks": 10}
         out.append(plines.LineRunner.rebuild(sc))
+    # in-process builtins with two file targets under every small limit (one free slot: the second open fails)
+    def out_r2(fd, target):
+        return {"k": "out", "fd": fd, "append": False, "target": target, "spaced": False, "explicit1": False}
+    for n in range(4, 13):
+        lines = [
+            {"stages": [{"kind": "builtin", "text": "ulimit -n %d" % n}], "probe": False, "limit": n},
+            {"stages": [{"kind": "builtin", "text": "alias", "redirs": [out_r2(2, "f1"), out_r2(1, "f2")]}], "probe": False,
+             "exhausted": True},
+            {"stages": [{"kind": "builtin", "text": "cd /nonexistent_zz", "redirs": [out_r2(1, "f1"), out_r2(2, "f3")]}],
+             "probe": False, "exhausted": True},
+            {"stages": [{"kind": "builtin", "text": "ulimit -n 1024"}], "probe": False, "limit": 0},
+            {"stages": [pup("prb", {"t": "ignorer", "code": 0}, args=["$?"])], "probe": True},
+        ]
+        sc = {"prop": "C08", "lines": lines, "externals": [], "faults": {}, "files": {}, "config": "rlimit_builtin_sweep",
+              "adversarial_picks": 0}
+        out.append(plines.LineRunner.rebuild(sc))
     # `source` starting a program, plainly and inside both substitution spellings and an assignment
     for form in range(4):
         lines = [source_line(form, 0), {"stages": [pup("prb", {"t": "ignorer", "code": 0}, args=["$?"])], "probe": True}]
